@@ -180,3 +180,27 @@ CONTRACTS.append(Contract(
     notes="single-character instance; lifted to all strings by lemma HOM-2 (every replace "
           "pattern is one character, so each replace distributes over concatenation) whose "
           "side condition is the obligation K2.__quote.hom.shape"))
+
+
+# ---------------------------------------------------------------------------------------
+# K2.__convert: the conversion routine without escaping (structure: values, text templates,
+# interpolation parts).  Same dispatch as __quote, no replace steps at all.
+# ---------------------------------------------------------------------------------------
+_TC = k2.template_sources()['emit_func_convert']
+BYPASS_C = "target is None or is_exact(target, int) or is_exact(target, float) or has_html(target)"
+CONTRACTS.append(Contract(
+    "compiler.py::K2.__convert", params={"target": "any"}, source=(_TC['source'], 'func'), kind="K2",
+    ensures=[
+        "target is not None or result is None",
+        "not is_exact(target, str) or result is target",
+        "not is_exact(target, int) or result == str(target)",
+        "not is_exact(target, float) or result == str(target)",
+        "target is None or (%s) or is_exact(target, int) or is_exact(target, float) "
+        "or not has_html(target) or result is html_result(target)" % TEXTY,
+        "translate_count() <= 1",
+        "(translate_count() == 1) == (not (%s) and not (%s))" % (BYPASS_C, TEXTY),
+    ],
+    ghost={'env': env(), 'spec_modules': ['spec.core', 'spec.esc']},
+    serves=["C02", "C06", "C20", "C10"],
+    notes="A-DECODE, A-TRANSLATE as for __quote; a str is returned as it is (no escaping: the documented "
+          "opt-out of structure: / text mode)"))
